@@ -17,7 +17,7 @@ CLAUSE = ('every path on which App::build (hence `pavexc generate`) reports fail
           'error gate, transitively through every Result<_, ()> helper; the CLI writes files only on the Ok arm of build()/codegen() and '
           'returns FAILURE on the Err arm; the error gate counts diagnostics without a severity as errors; lib.rs is the last fallible '
           'step of persist; in the borrow-check fixpoint the strategy machine escalates Park->Clone->Error and the flag that licenses the '
-          'only non-escalating transition is cleared when that transition is taken.')
+          'only non-escalating transition is cleared when that transition is taken. Every fallible call from pavexc into rustdoc_processor has its Err propagated, unwrapped or reported on every path; ids from the persisted access log reach compute_batch only through the package-graph filter; checked subtractions in the early passes are guarded or reviewed.')
 TRUSTED = ['miette treats a diagnostic without severity as an error when rendering', 'panics are outside this rule (belief sites are not discharged statically)']
 
 APP_BUILD = PX + 'app::App::build'
